@@ -639,6 +639,15 @@ class Gen:
             self.stmts(f, ind + 1, depth - 1, r.randrange(1, 4), in_loop)
             f.emit("),", ind)
             self.stats["shape_seq"] += 1
+        elif k < 0.74 and self.p.markers:
+            # the SAME literal written once more, at another place (with assemble_constants it lands in a constant block;
+            # each writing line must still get its own TEAL line)
+            m = r.choice(sorted(self.p.markers))
+            kind = self.p.markers[m][2]
+            src = f"pt.Int({m})" if kind == "int" else f'pt.Bytes("mk{m}")'
+            self.p.repeats.setdefault(m, []).append((f.name, len(f.lines) + 1))
+            f.emit(f"pt.Pop({src}),", ind)
+            self.stats["shape_repeated_literal"] += 1
         elif k < 0.77:
             src, _ = self.marker(f, len(f.lines) + 1, "int")
             f.emit(f'pt.Assert({src}, comment="c15 note // not a comment"),', ind)
@@ -711,6 +720,7 @@ class Project:
         self.r, self.stats, self.shape = r, stats, shape
         self.next_marker = MARK0 + r.randrange(0, 1000) * 1000
         self.markers: dict[int, tuple[str, int, str]] = {}
+        self.repeats: dict[int, list[tuple[str, int]]] = {}     # further writing positions of a marker
         self.subs_u: list[str] = []
         self.helpers: list = []
         self.vars = ["c15_v0", "c15_v1"]
@@ -972,6 +982,7 @@ def analyse(rep: Report, d: Driver, proj: Project, wd: Path, on: dict, off: dict
                          case=case["name"])
                     continue
                 # marker attribution
+                hits: dict = {}
                 for i, line in enumerate(lines):
                     m = marker_of_teal_line(line, proj.markers)
                     if m is None:
@@ -981,6 +992,11 @@ def analyse(rep: Report, d: Driver, proj: Project, wd: Path, on: dict, off: dict
                     got = (os.path.relpath(os.path.normpath(os.path.join(mp["source_root"], ents[i][4])), str(wd)),
                            ents[i][5] + 1)
                     proj.seen.add(m)
+                    hits.setdefault(m, []).append(got)
+                    if m in proj.repeats:
+                        # written at several places: the line must be attributed to one of them (which ones: below)
+                        if got in [tuple(want)] + [tuple(x) for x in proj.repeats[m]]:
+                            continue
                     if got != want:
                         # known finding only when the writer's file name matches StackFrame._internal_paths
                         internal = d.ask("c15-internal " + tx(str(wd / want[0]))) == "1"
@@ -988,6 +1004,18 @@ def analyse(rep: Report, d: Driver, proj: Project, wd: Path, on: dict, off: dict
                         viol(f"{atag}: TEAL line {i + 1} {line!r} carries the constant written at {want[0]}:{want[1]} "
                              f"but is attributed to {got[0]}:{got[1]}", case=case["name"], marker=m,
                              key="c15-user-file-matches-internal-path" if internal else None)
+                        break
+                for m, where in proj.repeats.items():
+                    places = [tuple(proj.markers[m][:2])] + [tuple(x) for x in where]
+                    got_l = hits.get(m, [])
+                    stats["repeated_literals_checked"] += 1
+                    # as many loads as writing places (nothing eliminated): every place must own exactly its loads
+                    if len(got_l) == len(places) and sorted(got_l) != sorted(places):
+                        # known finding only when a writer's file name matches StackFrame._internal_paths
+                        internal = any(d.ask("c15-internal " + tx(str(wd / pl[0]))) == "1" for pl in places if pl not in got_l)
+                        stats["misattributed_internal_path" if internal else "misattributed_other"] += 1
+                        viol(f"{atag}: the constant {m} is written at {places} but its {len(got_l)} TEAL lines are attributed to {got_l}",
+                             case=case["name"], marker=m, key="c15-user-file-matches-internal-path" if internal else None)
                         break
                 # R3 JSON decodes back to the same associations: Lean decoder, real from_json, algosdk
                 j = mp["json"]
